@@ -30,6 +30,7 @@ type World struct {
 	interpPkgs map[string]bool
 	runtimeErr types.Type
 	errorType  types.Type
+	protoReg   map[string]*types.Named
 }
 
 func (w *World) info(fn *ssa.Function) *fnInfo {
@@ -538,8 +539,17 @@ func (e *Exec) visitInstr(fr *frame, instr ssa.Instruction) continuation {
 		}
 		tElt := instr.Type().Underlying().(*types.Slice).Elem()
 		s := make([]Value, cp)
-		for i := range s {
-			s[i] = e.zero(tElt)
+		if cp > 4096 {
+			// large backing arrays (a 1M-slot inbox) are filled with one shared lazy-zero marker; a slot is
+			// materialised when it is first loaded from or addressed into (see materialise)
+			lz := &lazyZero{t: tElt}
+			for i := range s {
+				s[i] = lz
+			}
+		} else {
+			for i := range s {
+				s[i] = e.zero(tElt)
+			}
 		}
 		fr.set(instr, s[:ln])
 
@@ -557,6 +567,7 @@ func (e *Exec) visitInstr(fr *frame, instr ssa.Instruction) continuation {
 		if p == nil {
 			fr.rtPanic("invalid memory address or nil pointer dereference (field)")
 		}
+		e.materialise(p)
 		fr.set(instr, &(*p).(structV)[instr.Field])
 
 	case *ssa.Field:
@@ -574,6 +585,7 @@ func (e *Exec) visitInstr(fr *frame, instr ssa.Instruction) continuation {
 			if x == nil {
 				fr.rtPanic("invalid memory address or nil pointer dereference (index)")
 			}
+			e.materialise(x)
 			a := (*x).(arrayV)
 			i := e.indexIn(fr, idx, signed, len(a))
 			fr.set(instr, &a[i])
@@ -708,4 +720,14 @@ func (e *Exec) zero(t types.Type) Value {
 		return tt
 	}
 	panic(fmt.Sprintf("zero: %s (%T)", t, t.Underlying()))
+}
+
+// lazyZero stands for the zero value of t in a large freshly made slice.
+type lazyZero struct{ t types.Type }
+
+// materialise replaces a lazy-zero marker in the cell by a real zero value.
+func (e *Exec) materialise(p *Value) {
+	if lz, ok := (*p).(*lazyZero); ok {
+		*p = e.zero(lz.t)
+	}
 }
